@@ -223,8 +223,9 @@ def conflicts(up, key, value, case):
     if case.get("proj") and (t.get("growing.ndirs_initial", n) < n or t.get("restarts.increase_npt")
                              or t.get("init.random_initial_directions")):
         return True
-    if key == "restarts.increase_npt_amt" and value == 0:
-        return False
+    if t.get("restarts.increase_npt") and t.get("restarts.use_soft_restarts", True) is False and \
+            t.get("restarts.increase_npt_amt", 1) > t.get("restarts.hard.increase_ndirs_initial_amt", 1):
+        return True     # known finding 'hard-restart-npt-growth' (pinned replay only)
     return False
 
 
@@ -490,5 +491,16 @@ def known_projection_flat(case, clause, detail):
     return bool(b.get("proj")) and b.get("fam") == "script" and "array must not contain infs or NaNs" in detail
 
 
+def known_hard_npt_growth(case, clause, detail):
+    b = case["base"]
+    up = dict(b.get("up") or {})
+    up.update(case["mut"].get("params") or {})
+    return bool(up.get("restarts.use_restarts")) and up.get("restarts.use_soft_restarts", True) is False and \
+        bool(up.get("restarts.increase_npt")) and \
+        up.get("restarts.increase_npt_amt", 1) > up.get("restarts.hard.increase_ndirs_initial_amt", 1) and \
+        "ZeroDivisionError" in detail
+
+
 PROFILES = {"args": Profile("args", cases, run, quick=4000, thorough=100000, timeout=120)}
-KNOWN = {"projections-npt": known_projection_npt, "projections-flat": known_projection_flat}
+KNOWN = {"projections-npt": known_projection_npt, "projections-flat": known_projection_flat,
+         "hard-restart-npt-growth": known_hard_npt_growth}
